@@ -616,8 +616,10 @@ pub fn run_real(
 pub struct JudgeOpts {
     /// Also run through `exec_bytecode` and compare (C14).
     pub mapped: bool,
-    /// Only report violations of these properties (empty = all).
+    /// Compare at the after_op hook.
     pub lockstep: bool,
+    /// Also run `eval_ops` and compare the boolean / error class (C09).
+    pub eval: bool,
 }
 
 #[derive(Debug, Default)]
@@ -791,6 +793,7 @@ pub fn judge(case: &VmCase, rep: &mut Report, mon: &Monitor, pools: &mut Pools, 
         }
     }
 
+    let issues_empty = issues.is_empty();
     if !issues.is_empty() {
         // If the last thing the VM did was a Compute, the cause may lie inside a child.
         if let Some(ls) = &real.lock {
@@ -803,6 +806,33 @@ pub fn judge(case: &VmCase, rep: &mut Report, mon: &Monitor, pools: &mut Pools, 
         }
         for (p, k, d) in issues {
             rep.violation(p, k, d, case_json());
+        }
+    }
+
+    // C09: eval = exec + "last word of the final stack is 1 / 0, anything else is an error".
+    if opts.eval && !lock_div && issues_empty {
+        let (views3, log3) = Views::new(&case.pre, &case.post);
+        let spy = CostSpy::new(case.cost.clone(), budget, 0);
+        let mut vm = build_vm(case);
+        let access = Access::new(ctx.solutions.clone(), ctx.index as u16);
+        let _ = log3;
+        let r = catch(|| vm.eval_ops(&ops, access, &views3, &spy, GasLimit { per_yield: GasLimit::DEFAULT_PER_YIELD, total: case.limit }));
+        rep.count("eval.runs");
+        let expect: Result<bool, bool> = match &mres {
+            Ok(()) => model::eval_result(&m.stack).ok_or(false),
+            Err(_) => Err(true),
+        };
+        match (r, expect) {
+            (Err(p), _) => rep.violation("C05", "panic", format!("eval_ops panicked: {p}"), case_json()),
+            (Ok(Ok(b)), Ok(e)) if b == e => rep.count(if b { "eval.true" } else { "eval.false" }),
+            (Ok(Err(essential_vm::error::EvalError::InvalidEvaluation(_))), Err(false)) => rep.count("eval.invalid"),
+            (Ok(Err(essential_vm::error::EvalError::Exec(_))), Err(true)) => rep.count("eval.exec_error"),
+            (Ok(got), exp) => rep.violation(
+                "C09",
+                "eval-result",
+                format!("eval_ops -> {}, but the final stack tail is {:?} (expected {exp:?}; Err(false) = invalid evaluation, Err(true) = execution error)", match &got { Ok(b) => format!("Ok({b})"), Err(e) => format!("Err({})", format!("{e}").chars().take(80).collect::<String>()) }, tail(&m.stack)),
+                case_json(),
+            ),
         }
     }
 
